@@ -110,12 +110,12 @@ def sizeStmt : SStmt → Nat
   | .ifBlock c thn elifs hasElse els _ =>
     (compileExpr c).length + 1 + sizeStmt thn + 1 + sizeElifs elifs + (if hasElse then 1 + sizeStmt els else 0) + 1
   | .select e cases hasElse els _ =>
-    (compileExpr e).length + 1 + sizeCases cases + (if hasElse then 1 + sizeStmt els else 0) + 2
+    (compileExpr e).length + 1 + 3 + sizeCases cases + (if hasElse then 1 + sizeStmt els else 0) + 3
   | .forLoop x t lo hi step body p =>
     (compileExprTo lo t).length + 2 + (compileExprTo hi t).length +
     (match step with
-     | none => 3 + sizeForBody x body + 1
-     | some s => 1 + (compileExpr s).length + 8 + sizeForBody x body + 2 + 3 + sizeForBody x body + 4)
+     | none => 6 + sizeForBody x body + 1
+     | some s => 1 + (compileExpr s).length + 11 + sizeForBody x body + 2 + 3 + sizeForBody x body + 4)
   | .while c body _ => 1 + (compileExpr c).length + 1 + sizeStmt body + 2
   | .doLoop c top u body _ =>
     if top then 1 + (compileExpr c).length + (if u then 3 else 1) + sizeStmt body + 2
@@ -198,12 +198,15 @@ def compileStmt : String → Nat → SStmt → Code
       [(.label (labelName "end-if" p sfx), p)]
   | sfx, off, .select e cases hasElse els p =>
     let ne := (compileExpr e).length
-    let casesOff := off + ne + 1
+    let casesOff := off + ne + 1 + 3
     let elseOff := casesOff + sizeCases cases
     let endOff := elseOff + (if hasElse then 1 + sizeStmt els else 0)
-    compileExpr e ++ [(.pushA, p)] ++ compileCases sfx p endOff elseOff casesOff 0 cases ++
+    -- `jump select-begin; jump select-skip; label select-begin`: a resume point for an error in the selector
+    compileExpr e ++ [(.pushA, p)] ++
+      [(.jump (casesOff - 1), p), (.jump (endOff + 2), p), (.label (labelName "select-begin" p sfx), p)] ++
+      compileCases sfx p endOff elseOff casesOff 0 cases ++
       (if hasElse then [(.label (labelName "case-else" p sfx), p)] ++ compileStmt sfx (elseOff + 1) els else []) ++
-      [(.label (labelName "end-select" p sfx), p), (.popA, p)]
+      [(.label (labelName "end-select" p sfx), p), (.popA, p), (.label (labelName "select-skip" p sfx), p)]
   | sfx, off, .forLoop x t lo hi step body p =>
     let nlo := (compileExprTo lo t).length
     let nhi := (compileExprTo hi t).length
@@ -211,20 +214,24 @@ def compileStmt : String → Nat → SStmt → Code
     compileExprTo lo t ++ storeVar x p ++ compileExprTo hi t ++
     (match step with
      | none =>
-       let bodyOff := hdr + 3
+       let bodyOff := hdr + 6
        let outOff := bodyOff + sizeForBody x body
-       [(.copyAToC, p), (.loadA (.int 1), p), (.copyAToD, p)] ++
+       -- `jump for-begin; jump out-of-for; label for-begin`: a resume point for an error in the header
+       [(.copyAToC, p), (.loadA (.int 1), p), (.copyAToD, p),
+        (.jump (hdr + 5), p), (.jump outOff, p), (.label (labelName "for-begin" p sfx), p)] ++
          forBody sfx x t (compileStmt (stepSuffix sfx true) (bodyOff + 8) body) true p bodyOff outOff ++
          [(.label (labelName "out-of-for" p sfx), p)]
      | some s =>
        let ns := (compileExpr s).length
-       let negOff := hdr + 1 + ns + 8
+       let negOff := hdr + 1 + ns + 11
        let testPosOff := negOff + sizeForBody x body + 1
        let posOff := testPosOff + 4
        let zeroOff := posOff + sizeForBody x body + 1
        let outOff := zeroOff + 2
        [(.pushA, p)] ++ compileExpr s ++
-         [(.copyAToD, p), (.popA, p), (.copyAToC, p), (.loadA (.int 0), p), (.copyAToB, p), (.copyDToA, p),
+         [(.copyAToD, p), (.popA, p), (.copyAToC, p),
+          (.jump (hdr + 1 + ns + 5), p), (.jump outOff, p), (.label (labelName "for-begin" p sfx), p),
+          (.loadA (.int 0), p), (.copyAToB, p), (.copyDToA, p),
           (.bin .less, p), (.jumpIfFalse testPosOff, p)] ++
          forBody sfx x t (compileStmt (stepSuffix sfx false) (negOff + 8) body) false p negOff outOff ++
          [(.jump outOff, p), (.label (labelName "test-positive-or-zero" p sfx), p), (.copyDToA, p),
